@@ -13,7 +13,7 @@ RULE = ("shapes with 1..5 axes and lengths 1..6 (unequal preferred) with product
         "axes) plus duplicate / out-of-range / all-axes requests; random integer data (exact in f64, no ramp masking); "
         "exact comparison with the model; on the implementation: joint = one-at-a-time with renumbering, and every "
         "order gives identical output; CLI -m / -M on text input for a slice. non-trivial = a successful marginalization "
-        "of >= 1 axis; spectra of 65-130 axes with -m / -M lists naming axes 63, 64, 65 and beyond, and entries of 2^32 and more")
+        "of >= 1 axis; spectra of 65-130 axes with -m / -M lists naming axes 63, 64, 65 and beyond, and entries of 2^32 and more; out-of-range axes first / in the middle of lists on 3- and 4-axis spectra")
 
 
 def fmt(l):
@@ -201,6 +201,13 @@ def check(rep, tier, seed):
         for kl in ([a] * d, [a, a], [a, d + 3] + [a] * (d - 2), list(range(d)) + [0], [a] + [rng.randrange(d) for _ in range(d - 1)]):
             jobs.append((["view", "-M", ",".join(map(str, kl)), "--precision", "1"], text_spectrum(sh, ints)))
             exp_cases.append("viewrun k:%s - 0 0 %s %s" % (fmt(kl), fmt(sh), ",".join(ints)))
+    # long axes (129, 131, 201, 257 entries: a population of 64, 65, 100, 128 diploids) removed and kept: every slice along the
+    # removed axis enters the sum, the last one included
+    for sh in ([129, 3], [3, 131], [2, 201, 3], [130, 2], [128, 3], [257, 2], [2, 255]):
+        ints = [str(rng.randrange(0, 50)) for _ in range(elements(sh))]
+        for ml in [[a_] for a_ in range(len(sh))] + ([[2, 1], [0, 1]] if len(sh) == 3 else []):
+            jobs.append((["view", "-m", ",".join(map(str, ml)), "--precision", "1"], text_spectrum(sh, ints)))
+            exp_cases.append("marg %s %s %s" % (fmt(sh), ",".join(ints), fmt(ml)))
     # many axes (more than the 64 bits of a machine word; most of length one): -m / -M lists naming axes 63, 64, 65 and beyond,
     # kept and removed, and keep-list entries far outside the spectrum (2^32, 2^32 + 1: they name no axis and keep none)
     for nax in (65, 66, 70, 130):
@@ -215,11 +222,13 @@ def check(rep, tier, seed):
             jobs.append((["view", "-m", ",".join(map(str, ml)), "--precision", "1"], text_spectrum(sh, ints)))
             exp_cases.append("marg %s %s %s" % (fmt(sh), ",".join(ints), fmt(ml)))
     # inadmissible lists through the binary: an axis named twice (adjacent or not), out of range, all axes, too many
-    for sh, data in list(pool)[:8 if tier == "quick" else 60]:
+    deep = [p_ for p_ in pool if len(p_[0]) == 3][:5] + [p_ for p_ in pool if len(p_[0]) >= 4][:5]        # lists shorter than the number of axes need 3, 4 axes
+    for sh, data in list(pool)[:8 if tier == "quick" else 60] + deep:
         d = len(sh)
         ints = [str(abs(x)) for x in data]
         a, b = (rng.sample(range(d), 2) if d >= 2 else (0, 0))
-        for ml in ([a, a], [a, b, a], [b, a, a], [d], [a, d + 2], list(range(d)), list(range(d)) + [a]):
+        # (an axis the spectrum does not have in the first, a middle and the last place of the list)
+        for ml in ([a, a], [a, b, a], [b, a, a], [d], [a, d + 2], [d + 2, a], [d, a], [d + 5, b, a], [a, d + 1, b], list(range(d)), list(range(d)) + [a]):
             jobs.append((["view", "-m", ",".join(map(str, ml)), "--precision", "1"], text_spectrum(sh, ints)))
             exp_cases.append("marg %s %s %s" % (fmt(sh), ",".join(ints), fmt(ml)))
     mo2 = run_model(exp_cases)
